@@ -1,7 +1,7 @@
 (** C19 — every reported source position lies inside the source and is self-consistent.
     Property theorems only; every proof is [exact lemma]. *)
 From Coq Require Import List NArith Bool.
-From UV Require Import Model.Lex Proofs.Lex Proofs.LexGuardSpan.
+From UV Require Import Model.Lex Proofs.Lex Proofs.LexGuardSpan Proofs.LexTree.
 Import ListNotations.
 Open Scope N_scope.
 
@@ -120,6 +120,20 @@ Theorem C19_guard_err_span_refuted_pre :
     fst (guard_err_span pre first) = spec_loc (pre ++ tail) (length pre).
 Proof. exact guard_err_span_refuted_pre. Qed.
 
+(** the parser's span merging lifted to any number of parts and to nested words: the merge of
+    valid spans of one source is a valid span that contains every part; when every node's span
+    is the merge of its children's spans (strands, modified words: parse.rs:1127-1131,
+    1198-1202) every node's span is valid and contains the span of every leaf below it *)
+Theorem C19_merge_all_sound : forall i s l, fits32 i -> fits16 i -> valid_span i s -> Forall (valid_span i) l ->
+  valid_span i (merge_all s l) /\ forallb (span_contains (merge_all s l)) (s :: l) = true.
+Proof. exact merge_all_sound. Qed.
+Theorem C19_merge_tree_sound : forall i t, fits32 i -> fits16 i -> (forall s, In s (leaves t) -> valid_span i s) ->
+  valid_span i (tspan t) /\ forallb (span_contains (tspan t)) (leaves t) = true.
+Proof. exact merge_tree_sound. Qed.
+Theorem C19_merge_tree_sound_guarded : forall i t, fits32 i -> accepted i = true -> (forall s, In s (leaves t) -> valid_span i s) ->
+  valid_span i (tspan t) /\ forallb (span_contains (tspan t)) (leaves t) = true.
+Proof. exact merge_tree_sound_guarded. Qed.
+
 (** the formatter's end_loc (output side of the glyph map): after 54c7366 the column is the
     true column clamped at 65535 (exact up to 65535, never beyond the true place); the old
     code wrapped to 0; the clamp is the remaining 16-bit limit *)
@@ -204,3 +218,6 @@ Print Assumptions C19_out_true_col_app.
 Print Assumptions C19_end_loc_app.
 Print Assumptions C19_push_additive_col_refuted.
 Print Assumptions C19_running_end_loc.
+Print Assumptions C19_merge_all_sound.
+Print Assumptions C19_merge_tree_sound.
+Print Assumptions C19_merge_tree_sound_guarded.
